@@ -853,6 +853,17 @@ func (g *Gen) evalCall(env *Env, x *ECall) Val {
 			return Val{T: a.T, S: fmt.Sprintf("(ite %s %s %s)", c.S, a.S, b.S)}
 		}
 		return Val{T: a.T, S: fmt.Sprintf("(ite %s %s %s)", c.S, b.S, a.S)}
+	case "boxed":
+		// boxed(x): the interface value the program gets when it converts the Go value x to an interface type
+		// (errors.Is(err, packets.CodeSuccessIgnore) boxes the constant): the same term MakeInterface produces
+		v := g.eval(env, x.Args[0])
+		if v.T == nil {
+			panic(evalErr("boxed() needs a Go value"))
+		}
+		if v.sort(g) == "Iface" {
+			return v
+		}
+		return g.makeInterface(v, types.NewInterfaceType(nil, nil))
 	case "strcontains":
 		// strcontains(s, sub): uninterpreted unless the lemma runs with strings=native (then str.contains)
 		a, b := g.eval(env, x.Args[0]), g.eval(env, x.Args[1])
